@@ -146,8 +146,13 @@ class RngStub:
         self.draws = []
 
     def integers(self, low, high=None, size=None, **kw):
+        """Arbitrary ints in [low, high): drawn symbolically, then enumerated by forking, so the code
+        under analysis receives an ordinary integer array on each path."""
         if high is None:
             low, high = 0, low
+        low, high = int(low), int(high)
+        if low >= high:
+            raise ValueError("low >= high")
         n = 1 if size is None else int(np.prod(size))
         out = []
         for _ in range(n):
@@ -155,11 +160,11 @@ class RngStub:
             self.n += 1
             E.cur().assume(v >= low)
             E.cur().assume(v < high)
-            out.append(v)
+            out.append(int(v))
         self.draws.append(("integers", low, high, list(out)))
         if size is None:
             return out[0]
-        return SymArr(np.asarray(out, dtype=object).reshape(size))
+        return np.asarray(out, dtype=np.int64).reshape(size)
 
     def uniform(self, low=0.0, high=1.0, size=None):
         shape = () if size is None else ((size,) if isinstance(size, (int, np.integer)) else tuple(size))
